@@ -10,7 +10,7 @@
             pend    = ((q prio cnt sid) ...)
             putlog  = ((tid q prio cnt sid) ...) chronological
             qlocks  = (holder_0 ... holder_nq-1)     0 free | tid+1
-            threads = ((finished enabled waiting_get proglen (unput ...) (held ...)) ...)
+            threads = ((finished enabled waiting_get actions_not_completed (unput ...) (held ...)) ...)
             stuck   = 1 iff some thread is unfinished, none is enabled and not all unfinished ones wait in get() *)
 From Coq Require Import ZArith NArith List Bool.
 From SL Require Import Sx Conc.
@@ -58,7 +58,7 @@ Definition of_state (st : cstate) : sx :=
       of_list (fun x => L [of_nat (fst x); of_nat (snd x)]) (h_src h);
       L (map (fun tth => let '(t, th) := tth in
                 L [of_bool (finished th); of_bool (enabled t st); of_bool (waiting_get th h);
-                   of_nat (length (t_prog th)); of_list of_nat (thr_unput th); of_list of_nat (thr_held th)])
+                   of_nat (length (t_prog th) + match t_pc th with P0 | PDead => 0 | _ => 1 end); of_list of_nat (thr_unput th); of_list of_nat (thr_held th)])
              (combine (seq 0 (length (c_thr st))) (c_thr st)));
       of_bool (stuck st) ].
 
